@@ -91,6 +91,11 @@ def funcs(ctx, module=None, stubs=None):
                     break
         if exprs[nm] is not _MISSING:
             return exprs[nm]
+        for m in ([ctx.prog.modules[module]] if module in ctx.prog.modules else []) + list(ctx.prog.modules.values()):
+            c = m.consts.get(nm)
+            if isinstance(c, ast.Lambda):
+                exprs[nm] = orders.ev(c, {}, fn)             # NAME = lambda ...: at module level
+                return exprs[nm]
         if nm in _BUILTIN_NAMES:
             return _BUILTIN_NAMES[nm]
         # a name imported from a pure standard-library module (from operator import lt as _lt)
@@ -535,9 +540,9 @@ class ClassRef(orders.PyStub):
                         self._consts['__members__'][nm_] = m_
             object.__setattr__(self, '_enum', members)
         for name, node in methods_of(ctx, clsqual).items():
-            params = [a.arg for a in node.args.args]
-            static = any(isinstance(d, ast.Name) and d.id in ('staticmethod',) for d in node.decorator_list) or not params or params[0] not in ('self', 'cls')
-            if any(isinstance(d, ast.Name) and d.id == 'classmethod' for d in node.decorator_list) and params:
+            params = [a.arg for a in getattr(node.args, 'posonlyargs', [])] + [a.arg for a in node.args.args]
+            static = any(isinstance(d, ast.Name) and orders._deco_name(d) in ('staticmethod',) for d in node.decorator_list) or not params or params[0] not in ('self', 'cls')
+            if any(isinstance(d, ast.Name) and orders._deco_name(d) == 'classmethod' for d in node.decorator_list) and params:
                 # a class method reached through the class: its first parameter is the class object itself
                 object.__setattr__(self, name, (lambda node_: lambda *a, **k: orders.make_func(node_, fn)(self, *a, **k))(node))
             elif static:
@@ -729,7 +734,7 @@ class ClassRef(orders.PyStub):
                 for b_ in c_.bases:
                     todo += [cq for cq, ci in self._ctx.prog.classes.items() if ci.name == b_.split('.')[-1] and ci is not c_]
             left = sorted(n_ for n_, m_ in obj.methods.items() if is_abc and isinstance(m_, ast.FunctionDef) and not n_.startswith('_' + obj.clsname.lstrip('_') + '__')
-                          and any('abstractmethod' in ast.unparse(d_) for d_ in m_.decorator_list))
+                          and any('abstractmethod' in ast.unparse(d_) for d_ in m_.decorator_list) and n_ not in (obj.consts or {}))
             object.__setattr__(self, '_abstract', left)
         if self.__dict__['_abstract']:
             raise TypeError("Can't instantiate abstract class %s without an implementation for abstract method%s %s"
